@@ -163,7 +163,7 @@ def run(chk) -> None:
             return not ex
         if it == "expect":
             return not o["allowExpect"] and not ex
-        if it == "clonePlain":
+        if it in ("clonePlain", "cloneLetShadowed"):
             return in_loop and o["detectLoop"] and not ex
         if it == "cloneWhileCond":
             return o["detectLoop"] and not ex
@@ -175,7 +175,7 @@ def run(chk) -> None:
         return (s["fn"] == "async" or "asyncfn" in inner) and not (set(inner) & wraps) and o[flag] and not ex
 
     own = {"unwrap": "unwrap-abuse", "expect": "unwrap-abuse", "unwrapChain2": "unwrap-abuse",
-           "unwrapChainLines": "unwrap-abuse", "expectThenUnwrap": "unwrap-abuse", "clonePlain": "clone-abuse", "cloneChain": "clone-abuse",
+           "unwrapChainLines": "unwrap-abuse", "expectThenUnwrap": "unwrap-abuse", "clonePlain": "clone-abuse", "cloneLetShadowed": "clone-abuse", "cloneChain": "clone-abuse",
            "cloneLetUnused": "clone-abuse", "cloneLetMentioned": "clone-abuse", "cloneWhileCond": "clone-abuse"}
     for (j, sites_l, run_), (la, lb, at) in zip(meta, verdicts):
         o = spec_opts(run_["linter"], run_["opts"])
